@@ -283,19 +283,18 @@ def run(ctx, args):
     ctx.regen(["GenWs.v"])
     ctx.build("Props/C10.vo")
     quick = ctx.tier == "quick"
-    recs = []
     with no_gc():
-        for h in range(220 if quick else 5000):
-            recs.append(run_case(ctx, ctx.rng, h))
-    terms = []
-    for r in recs:
-        evs = "[%s]" % ";".join(gevent(e["ev"]) for e in r["events"])
-        terms.append("cev_hist %s %s" % (T.gworld(r["w0"]), evs))
-        terms.append("avoid_report false %s %s" % (T.gworld(r["w0"]), evs))
-    vals = ctx.coq_eval("c10", REQ, terms, chunk=max(8, len(terms) // 16 + 2))
-    for i, r in enumerate(recs):
-        compare(ctx, r, vals[2 * i])
-        check_guard(ctx, r, vals[2 * i + 1])
+        for b in range(1 if quick else 10):
+            recs = [run_case(ctx, ctx.rng, b * 1000 + h) for h in range(220 if quick else 300)]
+            terms = []
+            for r in recs:
+                evs = "[%s]" % ";".join(gevent(e["ev"]) for e in r["events"])
+                terms.append("cev_hist %s %s" % (T.gworld(r["w0"]), evs))
+                terms.append("avoid_report false %s %s" % (T.gworld(r["w0"]), evs))
+            vals = ctx.coq_eval("c10", REQ, terms, chunk=max(8, len(terms) // 16 + 2))
+            for i, r in enumerate(recs):
+                compare(ctx, r, vals[2 * i])
+                check_guard(ctx, r, vals[2 * i + 1])
     return ctx.finish(
         rule="states: C01-reachable trees (1-2 parsed documents with mixed content, default namespace on/off, prologue / "
              "epilogue sometimes, a pool of parentless nodes, 0-8 edits); then one clone: any node (tag, text in DATA / "
